@@ -70,7 +70,7 @@ class CachingLoaderMixin(ABC, _CachingLoaderProtocol):
 
     def _check_cache(
         self,
-        env: Environment,  # noqa: ARG002
+        env: Environment,
         cache_key: str,
         globals: Mapping[str, object] | None,  # noqa: A002
         load_func: Callable[[], Template],
@@ -87,13 +87,14 @@ class CachingLoaderMixin(ABC, _CachingLoaderProtocol):
             self.cache[cache_key] = template
             return template
 
-        if globals:
-            cached_template.global_data = globals
+        # Always rebind, as the non-caching loader would. Keeping the previous
+        # caller's globals when this caller has none leaks data between callers.
+        cached_template.global_data = env.make_globals(globals)
         return cached_template
 
     async def _check_cache_async(
         self,
-        env: Environment,  # noqa: ARG002
+        env: Environment,
         cache_key: str,
         globals: Mapping[str, object] | None,  # noqa: A002
         load_func: Callable[[], Awaitable[Template]],
@@ -110,8 +111,9 @@ class CachingLoaderMixin(ABC, _CachingLoaderProtocol):
             self.cache[cache_key] = template
             return template
 
-        if globals:
-            cached_template.global_data = globals
+        # Always rebind, as the non-caching loader would. Keeping the previous
+        # caller's globals when this caller has none leaks data between callers.
+        cached_template.global_data = env.make_globals(globals)
         return cached_template
 
     def load(
